@@ -106,6 +106,14 @@ func checkConfigCompatibility(
 		}
 	}
 	{
+		// records are reference-counted by the number of outputs and inputs keep the old allocator after reloading
+		oldNum := len(oldConf.OutputBuffersPairs)
+		newNum := len(newConf.OutputBuffersPairs)
+		if oldNum != newNum {
+			return fmt.Errorf("the number of outputBufferPairs must not change: old=%d, new=%d", oldNum, newNum)
+		}
+	}
+	{
 		oldType := oldConf.Orchestration.Value.GetType()
 		newType := newConf.Orchestration.Value.GetType()
 		if oldType != newType {
